@@ -266,6 +266,9 @@ void profile_cfg_more(const std::string &prof, uint64_t seed, RunCfg &c, Rng &r)
     c.faults = 1;
     c.min_delay = 300; c.max_delay = 20000;
     if (r.chance(0.25)) c.t0_us -= c.t0_us % 1000000;   // usec == 0 instants matter for "is the timestamp set" tests
+    // a share of runs is built around the fall-back: a single server that proves support and then stops returning cookies, so the
+    // request made after the regression period has nowhere else to go
+    if (r.chance(0.25)) { c.knobs["c17_fallback_motif"] = 1; c.servers.resize(1); c.servers[0].cookie_mode = CK_REGRESS; c.knobs["kind_mask"] = (1 << K_SEND_DNSREC) | (1 << K_QUERY_DNSREC) | (1 << K_QUERY); }
   } else if (prof == "C09") {
     c.allow_cancel_in_cb = 0;
     c.servers.clear();
@@ -499,6 +502,22 @@ bool profile_plan_more(const RunCfg &c, Rng &r, std::vector<Step> &plan) {
       }
       if (s.k == S_REQ) s.d = (s.d / R_NREACT) * R_NREACT + R_NONE;
       plan.push_back(s);
+    }
+    if (c.knob("c17_fallback_motif", 0)) {
+      // prove support, withdraw it, let a cookie-less reply be examined, wait out the regression period, ask again
+      auto mk = [&](int k) { Step s; s.k = k; s.a = (int64_t)r.below(1000); s.b = (int64_t)r.below(1000); s.c = (int64_t)r.below(1000000); s.d = (int64_t)r.below(1000); if (k == S_ADV) { s.a = 0; s.b = 0; } if (k == S_REQ) s.d = (s.d / R_NREACT) * R_NREACT + R_NONE; return s; };
+      if (plan.size() > 40) plan.resize(40);
+      int toggles = 0; for (auto &s : plan) if (s.k == S_COOKIECTL) toggles++;
+      if (toggles % 2) { Step s = mk(S_COOKIECTL); s.a = 0; plan.push_back(s); }        // support is being returned again
+      for (int i = 0; i < 2; i++) plan.push_back(mk(S_REQ));
+      for (int i = 0; i < 8; i++) plan.push_back(mk(S_ADV));
+      { Step s = mk(S_COOKIECTL); s.a = 0; plan.push_back(s); }                           // withdrawn
+      plan.push_back(mk(S_REQ));
+      for (int i = 0; i < 3; i++) plan.push_back(mk(S_ADV));
+      { Step s = mk(S_STALL); static const int64_t w2[] = {121000, 122000, 150000, 300000, -121, -122, -125, -300}; s.a = w2[r.below(8)]; plan.push_back(s); }
+      for (int i = 0; i < 6; i++) plan.push_back(mk(S_ADV));                              // the earlier request runs out of tries
+      plan.push_back(mk(S_REQ));
+      for (int i = 0; i < 10; i++) plan.push_back(mk(S_ADV));
     }
     return true;
   }
@@ -875,6 +894,7 @@ static void c17_end(Run &run) {
   std::map<std::string, int> last_fd;           // qid|qname -> socket of the latest transmission
   std::map<std::string, std::string> last_ck;   // qid|qname -> COOKIE option of the latest transmission (what a response is validated against)
   std::map<std::string, bool> awaiting;         // qid|qname -> transmitted and no answer consumed since (a consumed answer detaches the query until it is re-sent)
+  std::map<std::string, int64_t> last_tx_time;  // qid|qname -> time of the latest transmission
   std::map<std::string, int> reads_since_tx;    // qid|qname -> responses read since the latest transmission
   std::set<std::pair<int, int>> surely_examined; // (response, read index): the first response read after a transmission of its query, on that transmission's socket
   std::map<std::string, int> udp_after_three;   // qid|qname -> udp transmissions after the third BADCOOKIE
@@ -892,6 +912,7 @@ static void c17_end(Run &run) {
       std::string key = std::to_string(t.msg.id) + "|" + t.qname_lc;
       last_fd[key] = t.fd;
       last_ck[key] = ck;
+      last_tx_time[key] = t.t;
       awaiting[key] = true;
       reads_since_tx[key] = 0;
       if (badcookie_reads[key] >= 3) { run.violate("C17", "no_tcp_fallback_after_badcookie", "query " + t.qname_lc + " was sent over UDP again after three BADCOOKIE answers"); return; }
@@ -951,7 +972,23 @@ static void c17_end(Run &run) {
       // an earlier reply to the same transmission may have been consumed (e.g. FORMERR: the query is rewritten without EDNS and
       // parked for a resend), after which the library no longer relates further replies to a cookie it sent
       bool first_since_tx = reads_since_tx[key]++ == 0;
-      if (first_since_tx && on_current_socket && qck.size() >= 8) surely_examined.insert({e.idx, e.sub});
+      // ... and read before that transmission can have timed out (the application may run the library's timers before it lets
+      // it read; a query whose last attempt expired is gone by then)
+      // (every ares_process* call ends with a timer pass: the query is certainly alive at this read when no earlier call began at
+      //  or after the earliest instant its last attempt could expire)
+      int64_t base_to = (run.eff_timeout_ms > 0 ? run.eff_timeout_ms : 2000) * 1000;
+      bool before_timeout = false;
+      if (last_tx_time.count(key)) {
+        int64_t can_expire = last_tx_time[key] + base_to;
+        before_timeout = true;
+        uint32_t rseq = rs.read_seqs[(size_t)e.sub];
+        // the call this read belongs to = the last one that started before it
+        size_t mine = run.proc_calls.size();
+        for (size_t pi = 0; pi < run.proc_calls.size(); pi++) if (run.proc_calls[pi].first <= rseq) mine = pi;
+        for (size_t pi = 0; pi < run.proc_calls.size() && pi < mine; pi++) if (run.proc_calls[pi].second >= can_expire) { before_timeout = false; break; }
+        if (mine == run.proc_calls.size()) before_timeout = rs.read_times[(size_t)e.sub] < can_expire;
+      }
+      if (first_since_tx && on_current_socket && before_timeout && qck.size() >= 8) surely_examined.insert({e.idx, e.sub});
       if (rs.rcode == 23 && ck.size() >= 8 && ck.size() <= 40 && qck.size() >= 8 && ck.substr(0, 8) == qck.substr(0, 8) && on_current_socket && awaiting[key] && first_since_tx) { badcookie_reads[key]++; awaiting[key] = false; }
       if (valid && ck.substr(0, 8) != m.cc) continue;                 // answers a query sent before the rotation: not learned from
       if (valid && !on_current_socket) { m.sc_allowed.insert(ck.substr(8)); continue; }   // may or may not have been looked at
@@ -982,7 +1019,7 @@ static void c17_end(Run &run) {
   // bounded liveness: a query first sent later than 120 s after the first cookie-less reply must get its answer delivered
   for (auto &r : run.reqs) {
     if (!r.accepted || r.kind == K_GETADDRINFO) continue;
-    if (r.status != ARES_ETIMEOUT) continue;
+    if (r.cb_count == 0) continue;
     // only requests during whose life the application kept running its loop (a stalled application times queries out by itself)
     bool stalled = false;
     for (auto &st : run.stalls) if (st.second > r.t_submit && st.first < (r.t_done < 0 ? W.now_us : r.t_done) && st.second - st.first > 100000) stalled = true;
@@ -1015,7 +1052,8 @@ static void c17_end(Run &run) {
       if (fm < 0 || r.t_submit < fm + 121LL * 1000000 || !W.servers[sidx].regress_active) old_enough = false;
       for (auto &ce : run.cookie_ctl) if (ce.server == (int)sidx && ce.t > fm) old_enough = false;   // support toggled again meanwhile: no claim
     }
-    if (old_enough) { run.violate("C17", "no_fallback_after_regression_period", "request " + std::to_string(r.token) + " (" + r.name + ") was first sent more than 120 s after the server stopped returning cookies, the server answered every transmission, yet the request timed out (replies still ignored)"); return; }
+    if (old_enough) run.note("fallback_after_regression_checkable");
+    if (old_enough && r.status == ARES_ETIMEOUT) { run.violate("C17", "no_fallback_after_regression_period", "request " + std::to_string(r.token) + " (" + r.name + ") was first sent more than 120 s after the server stopped returning cookies, the server answered every transmission, yet the request timed out (replies still ignored)"); return; }
   }
 }
 
